@@ -291,6 +291,71 @@ example : ∃ c', nextReader witOver = (.err .readLimit, c') ∧ c'.r.readErr = 
 /-- evaluated: the 1009 close frame (masked with the first key of the key source) is the whole wire -/
 example : (nextReader witOver).2.w.wire = [0x88, 0x82, 1, 2, 3, 4, 3 ^^^ 1, 0xF1 ^^^ 2] := by decide
 
+/-- 64 payload bytes / 200 payload bytes -/
+def witP64 : Bytes := List.replicate 64 0x61
+def witP200 : Bytes := List.replicate 200 0x62
+
+/-- a SERVER connection with read limit 128, in the middle of a fragmented message of which 100 bytes
+    have been counted; pending: a masked (key 37 fa 21 3d) final continuation frame of 64 bytes, delivered in
+    three pieces (5 bytes buffered, then 30, then the rest plus a masked ping header): 100 + 64 > 128 -/
+def witSrvMid : Conn :=
+  { w := newW true 4096 false false,
+    r := { isServer := true, nego := false, limit := 128, length := 100, final := false,
+           msgReader := some 2, nextId := 3,
+           buf := { size := 4096, buf := (PFrame.enc true ⟨0, true, ⟨0x37, 0xfa, 0x21, 0x3d⟩, witP64⟩).take 5,
+                    t := { chunks := [((PFrame.enc true ⟨0, true, ⟨0x37, 0xfa, 0x21, 0x3d⟩, witP64⟩).drop 5).take 30,
+                                      (PFrame.enc true ⟨0, true, ⟨0x37, 0xfa, 0x21, 0x3d⟩, witP64⟩).drop 35 ++ [0x89, 0x80]] },
+                    total := 72 } } }
+
+def witSrvMid_atBoundary : AtBoundary witSrvMid :=
+  ⟨rfl, rfl, ⟨by decide, by decide, by decide, (by intro e h; cases h)⟩, by decide⟩
+
+/-- the frame really is masked: header 80 c0 (FIN+continuation, MASK+64), then the key -/
+example : witSrvMid.r.buf.pending.take 7 = [0x80, 0xC0, 0x37, 0xfa, 0x21, 0x3d, 0x61 ^^^ 0x37] := by decide
+
+/-- non-vacuity of `limit_refuses_any_role`: all hypotheses hold for the server reader `witSrvMid`
+    (masked continuation frame, running sum 100, limit 128, payload 64) -/
+example : ∃ c', advanceFrame witSrvMid = (.error .readLimit, c') ∧
+      c'.r.buf.pending = (if witSrvMid.r.isServer then maskFrom ⟨0x37, 0xfa, 0x21, 0x3d⟩ 0 witP64 else witP64) ++ [0x89, 0x80] ∧
+      c'.r.hlog = witSrvMid.r.hlog ∧
+      c'.w.wire = witSrvMid.w.wire ++ closeFrameBytes witSrvMid.w (closePayload 1009 []) ∧ c'.w.writeErr = some .closeSent :=
+  limit_refuses_any_role witSrvMid witSrvMid_atBoundary ⟨rfl, rfl⟩ 0 true ⟨0x37, 0xfa, 0x21, 0x3d⟩ witP64 [0x89, 0x80]
+    (by decide) (Or.inr ⟨rfl, rfl⟩) (by decide) (by decide) (by decide) (by decide) (by decide)
+
+/-- evaluated: the server's 1009 close frame (unmasked) is the whole wire -/
+example : (advanceFrame witSrvMid).2.w.wire = [0x88, 0x02, 0x03, 0xF1] := by decide
+
+/-- an idle SERVER reader with read limit 150 facing a masked (key a0 b0 c0 d0) unfragmented text frame of
+    200 bytes — the 16-bit length form (header 81 fe 00 c8) — in three transport chunks, then a ping header -/
+def witSrvOver : Conn :=
+  { w := newW true 4096 false false,
+    r := { isServer := true, nego := false, limit := 150, hlog := [.ping []],
+           buf := { size := 4096, buf := [],
+                    t := { chunks := [(PFrame.enc true ⟨1, true, ⟨0xa0, 0xb0, 0xc0, 0xd0⟩, witP200⟩).take 3,
+                                      ((PFrame.enc true ⟨1, true, ⟨0xa0, 0xb0, 0xc0, 0xd0⟩, witP200⟩).drop 3).take 100,
+                                      (PFrame.enc true ⟨1, true, ⟨0xa0, 0xb0, 0xc0, 0xd0⟩, witP200⟩).drop 103 ++ [0x89, 0x80]] },
+                    total := 210 } } }
+
+def witSrvOver_idle : ReaderIdle witSrvOver :=
+  ⟨rfl, rfl, rfl, ⟨by decide, by decide, by decide +kernel, (by intro e h; cases h)⟩, by decide, by decide +kernel,
+    (by intro id h; cases h), (by intro id h; cases h)⟩
+
+example : witSrvOver.r.buf.pending.take 9 = [0x81, 0xFE, 0x00, 0xC8, 0xa0, 0xb0, 0xc0, 0xd0, 0x62 ^^^ 0xa0] := by
+  decide +kernel
+
+def witP200_len : witP200.length = 200 := by rw [witP200, List.length_replicate]
+
+/-- non-vacuity of `nextReader_over_limit_any_role`: all hypotheses hold for the server reader `witSrvOver`
+    (200 > 150, 16-bit length form, masked) -/
+example : ∃ c', nextReader witSrvOver = (.err .readLimit, c') ∧ c'.r.readErr = some .readLimit ∧
+      c'.w.wire = witSrvOver.w.wire ++ closeFrameBytes witSrvOver.w (closePayload 1009 []) :=
+  nextReader_over_limit_any_role witSrvOver witSrvOver_idle (fun _ => rfl) ⟨rfl, rfl⟩ 1 (Or.inl rfl) true
+    ⟨0xa0, 0xb0, 0xc0, 0xd0⟩ witP200 [0x89, 0x80] (by rw [witP200_len]; decide) (by decide +kernel) (by decide)
+    (by rw [witP200_len]; decide)
+
+/-- evaluated -/
+example : (nextReader witSrvOver).2.w.wire = [0x88, 0x02, 0x03, 0xF1] := by decide +kernel
+
 end NonVacuity
 
 end WS.Props.C06
